@@ -94,7 +94,11 @@ pub trait BlsTimeCrypt:
             let len = uint_zigzag::Uint::try_from(&plaintext[..overhead])
                 .unwrap()
                 .0 as usize;
-            if len <= plaintext.len() - overhead {
+            // only the canonical encoding of the length is accepted, otherwise
+            // an altered length prefix could still open to the same message
+            if len <= plaintext.len() - overhead
+                && uint_zigzag::Uint::from(len).to_vec().as_slice() == &plaintext[..overhead]
+            {
                 message = plaintext[overhead..overhead + len].to_vec();
             } else {
                 return CtOption::new(w.to_vec(), 0u8.into());
